@@ -23,7 +23,8 @@ def T(*a):
 class PathEnum:
     """enumerate (atoms, outcome) for a loop-free body"""
 
-    def __init__(self, F, fn, inline=None, max_paths=MAX_PATHS):
+    def __init__(self, F, fn, inline=None, max_paths=MAX_PATHS, cut_loops=False):
+        self.cut_loops = cut_loops      # a path that closes a back edge ends with outcome ('loop', bb) instead of making the body undecided
         self.F = F
         self.fn = fn
         self.paths = []
@@ -143,6 +144,10 @@ class PathEnum:
         if len(self.paths) > self.max_paths:
             raise Undecided('more than %d paths' % self.max_paths)
         if bid in onpath:
+            if self.cut_loops:
+                self.paths.append((list(atoms), T('loop', bid)))
+                self.effects.append(list(eff))
+                return
             raise Undecided('loop at bb%d' % bid)
         b = fn.blocks[bid]
         if b['cleanup']:
